@@ -6,7 +6,7 @@
      clock_ok k0 ops     the clock readings of the history strictly increase
    [reading fs] sorts the sink's files by stamp, puts the plain name last and concatenates their chunks; a chunk is one
    whole event (the chunk 0 = bytes that are not a whole event never appears: see C08_no_torn_chunk). *)
-From Coq Require Import List NArith ZArith Sorted.
+From Coq Require Import List Bool NArith ZArith Sorted.
 From Verif Require Import FileSink FileSinkProofs FileSinkExamples.
 Import ListNotations.
 
@@ -94,6 +94,18 @@ Print Assumptions C08_no_torn_chunk.
 Theorem C08_outside_quantifier_retry_leaves_partial :
   acked (ex_retry retry_partial) = [1%N] /\ reading (files (ex_retry retry_partial)) = [0%N; 1%N].
 Proof. exact retry_leaves_partial. Qed.
+
+(* beyond the fault-free quantifier: for EVERY outcome of the write-fault oracle, a Process call that returns nil has put the
+   whole event at the end of what the files read (after at most the bytes of a failed first attempt), and a call that returns
+   an error acknowledges nothing — "every event for which Process returned success is present" survives failing write(2)s *)
+Theorem C08_write_ack_present : forall c w id size t1 t2 t3 t4 t5 flt,
+  sinv c w -> (clock w < t1)%Z -> (t1 < t2)%Z -> (t2 < t3)%Z -> (t3 < t4)%Z -> (t4 < t5)%Z ->
+  let r := do_write c w id size t1 t2 t3 t4 t5 flt in
+  if snd (fst r)
+  then D (fst (fst r)) = D w ++ (if first_fails flt && leaves_partial flt then [0%N] else []) ++ [id] /\ acked (fst (fst r)) = acked w ++ [id]
+  else acked (fst (fst r)) = acked w.
+Proof. exact write_ack_present. Qed.
+Print Assumptions C08_write_ack_present.
 
 (* the hypotheses are satisfiable by a history with rotations, retention, an external rename, a failed rotation and Reopen *)
 Theorem C08_nonvacuous :
